@@ -84,6 +84,40 @@ var matchers = []string{
 	"c:1,2:" + core.Hex("text/plain; charset=utf-8"),
 }
 
+// generalMatcher: a response matcher over any header field (and possibly negative / class status codes)
+func generalMatcher(rng *core.Rand) string {
+	codes := rng.Pick([]string{"*", "*", "*", "200", "2", "2,3", "404,200", "0", "-1", "_", "1,2,3,4,5"})
+	keys := shuffle(rng, []string{"Content-Type", "X-Other", "Cache-Control", "Etag", "content-type", "Content-Encoding", "Vary", "Accept-Ranges", "x-other", "Content-Length", "X-Missing", "a/b"})
+	n := rng.Intn(3)
+	if n == 0 && rng.Chance(1, 2) {
+		n = 1
+	}
+	vals := []string{"*", "text/*", "*json*", "*html", "v", "bytes", "W/*", "**", "*no-store*", "image/png", "text/plain; charset=utf-8", "*/*", "\"abc\"", "5*"}
+	var es []string
+	for _, k := range keys[:n] {
+		e := core.Hex(k) + "="
+		switch rng.Intn(6) {
+		case 0:
+			e += "!"
+		case 1:
+			e += "_"
+		default:
+			m := 1 + rng.Intn(2)
+			var vs []string
+			for i := 0; i < m; i++ {
+				vs = append(vs, core.Hex(rng.Pick(vals)))
+			}
+			e += strings.Join(vs, "|")
+		}
+		es = append(es, e)
+	}
+	entries := "*"
+	if len(es) > 0 {
+		entries = strings.Join(es, "&")
+	}
+	return "m:" + codes + ":" + entries
+}
+
 func shuffle(rng *core.Rand, xs []string) []string {
 	out := append([]string(nil), xs...)
 	for i := len(out) - 1; i > 0; i-- {
@@ -352,6 +386,9 @@ func (g *genCase) one() string {
 		min = -1 - rng.Intn(3)
 	}
 	matcher := rng.Pick(matchers)
+	if rng.Chance(1, 5) {
+		matcher = generalMatcher(rng)
+	}
 	// ---- request
 	method := "G"
 	if rng.Chance(1, 10) {
@@ -593,6 +630,12 @@ var malformed = []string{
 	"gzip - 0 e G ~ 0 ~ ~ ~ 1 -",
 	"gzip - 0 c:*: G ~ 0 ~ ~ ~ 1 -",
 	"gzip - 0 c:a:* G ~ 0 ~ ~ ~ 1 -",
+	"gzip - 0 m:*: G ~ 0 ~ ~ ~ 1 -",
+	"gzip - 0 m:x:* G ~ 0 ~ ~ ~ 1 -",
+	"gzip - 0 m:*:58=61&58=62 G ~ 0 ~ ~ ~ 1 -",
+	"gzip - 0 m:*:=61 G ~ 0 ~ ~ ~ 1 -",
+	"gzip - 0 m:*:58= G ~ 0 ~ ~ ~ 1 -",
+	"gzip - 0 m:--1:* G ~ 0 ~ ~ ~ 1 -",
 	"gzip - 0 d P ~ 0 ~ ~ ~ 1 -",
 	"gzip - 0 d G zz 0 ~ ~ ~ 1 -",
 	"gzip - 0 d G c3a9 0 ~ ~ ~ 1 -",
